@@ -26,17 +26,18 @@ from operon_ai.healing.regenerative_swarm import RegenerativeSwarm, WorkerMemory
 from operon_ai.organelles.chaperone import Chaperone
 from operon_ai.organelles.mitochondria import Mitochondria
 from operon_ai.organelles.nucleus import Nucleus
-from operon_ai.providers import LLMResponse, ToolCall
+from operon_ai.providers import (LLMResponse, ToolCall, NucleusError, ProviderUnavailableError, QuotaExhaustedError,
+                                 TranscriptionFailedError)
 
 ID = "C18"
 LEVEL = "exploration"
 ENGINE = "seq"
 RUNS = {"quick": 150_000, "thorough": 10_000_000}
-RULE = ("runs 0..16984 enumerate, per loop, every limit value 0..4 (swarm: both limits, 25 pairs) x every peer script of "
+RULE = ("runs 0..24199 enumerate, per loop, every limit value 0..4 (swarm: both limits, 25 pairs) x every peer script of "
         "length <=3 over the loop's alphabet with the last symbol repeating forever (heal: {non-JSON, schema-invalid, "
-        "valid, echo the error, raise RuntimeError, raise TypeError from its own body, never-repeating} x {plain, error-tagging} chaperone x {repeat-last, cycle}; swarm: "
-        "{same output, fresh output, marker, lower-case marker, raise, delegate a sub-task to the same supervisor "
-        "re-entrantly}; tools: {one tool, unknown tool, two tools, final, raise, raising tool} x final completion "
+        "valid, echo the error, raise RuntimeError, raise TypeError from its own body, raise the library's ProviderUnavailableError, never-repeating} x {plain, error-tagging} chaperone x {repeat-last, cycle}; swarm: "
+        "{same output, fresh output, marker, lower-case marker, near-miss of a marker (letters split over two words, a "
+        "digit, punctuation or a line break), raise, delegate a sub-task to the same supervisor re-entrantly}; tools: {one tool, unknown tool, two tools, final, raise, raising tool} x final completion "
         "{text, empty}); later runs sample scripts of length <=8 over wider alphabets, cycling tails, per-worker "
         "scripts, entropy thresholds, summarizer behaviours, repeated supervise / heal / transcribe_with_tools on one "
         "long-lived object, re-entrant delegation after k worker deaths, confidence decays, misfold observers (recording, "
@@ -58,7 +59,9 @@ ASSUMPTIONS = [
     "receive a text containing it (the plain chaperone's trace is generic, so the error-tagging subclass makes it unique per fold); "
     "in addition the feedback must not be an older attempt's: a context that carries the never-repeating output of an attempt "
     "before the previous one and nothing of the previous one is stale, whatever its format (judged with every chaperone variant)",
-    "a completion marker is one of SUCCESS/SOLVED/COMPLETE/DONE/FINISHED, case-insensitively, anywhere in the output",
+    "a completion marker is one of SUCCESS/SOLVED/COMPLETE/DONE/FINISHED, case-insensitively, as a contiguous substring of "
+    "the raw output (letters of two neighbouring words that happen to spell one are not a marker; decorated spellings such "
+    "as 'D O N E' are never generated, so no position is taken on them)",
     "bounds are upper bounds: a loop that stops earlier (entropy collapse, raising peer) is not judged for that",
     "a degraded result is required to be tagged with confidence 0; that it carries no structure is not demanded",
     "pydantic is trusted for re-validation",
@@ -75,7 +78,8 @@ EXPECT_PROBES = ("heal_degraded_at_limit", "heal_healed_at_limit", "heal_valid_f
                  "swarm_reentrant_after_death", "swarm_reentrant_sub_succeeded", "tools_blank_final_answer",
                  "tools_blank_final_with_nucleus_retries", "heal_second_call_on_same_loop",
                  "tools_second_call_on_same_nucleus", "heal_generator_raised_builtin_type",
-                 "swarm_worker_keeps_no_memory", "swarm_worker_edits_its_memory", "tools_large_payload")
+                 "swarm_worker_keeps_no_memory", "swarm_worker_edits_its_memory", "tools_large_payload",
+                 "heal_generator_raised_provider_error", "swarm_near_miss_output")
 
 MARKERS = ("SUCCESS", "SOLVED", "COMPLETE", "DONE", "FINISHED")
 SCOPE = None
@@ -100,7 +104,13 @@ HEAL_OUT = {
 GEN_RAISES = {"R": lambda: RuntimeError("generator failed"),
               "T": lambda: TypeError("can only concatenate str (not \"NoneType\") to str"),
               "A": lambda: AttributeError("'NoneType' object has no attribute 'strip'"),
-              "K": lambda: KeyError("error"), "Z": lambda: ValueError()}
+              "K": lambda: KeyError("error"), "Z": lambda: ValueError(),
+              # the library's own provider error family (a generator is usually a thin wrapper around an LLM client)
+              "N": lambda: ProviderUnavailableError("provider unreachable"), "q": lambda: QuotaExhaustedError("429"),
+              "t": lambda: TranscriptionFailedError(""), "b": lambda: NucleusError("nucleus error")}
+# outputs that almost carry a marker: the letters are there, but split over two words / a digit / punctuation / a line break
+NEAR_MISS = ["working out what to do next", "TODO: new idea", "undo nested", "redo\nnetwork", "do 2 nearly",
+             "solve 3 deadlocks", "finish editing", "to-do: next", "Do. Never mind", "re-solve data"]
 SWARM_OUT = {"s": "still thinking...", "M": "SUCCESS: solved it", "d": "all done here", "e": "",
              "f": "Finished? not really, but the word is there"}
 
@@ -117,12 +127,12 @@ def _table():
     t = []
     for lim in range(5):
         for chap in ("tagged", "plain"):
-            for s in _scripts("IWVERUT"):
+            for s in _scripts("IWVERUTN"):
                 for tail in (("last", "cycle") if len(s) >= 2 else ("last",)):
                     t.append(("heal", lim, chap, s, tail))
     for regen in range(5):
         for steps in range(5):
-            for s in _scripts("suMRdD"):
+            for s in _scripts("suMRdDn"):
                 t.append(("swarm", regen, steps, s))
     for lim in range(5):
         for s in _scripts("TK2FRE"):
@@ -132,6 +142,7 @@ def _table():
     return t
 
 
+assert not any(mk in o.upper() for o in NEAR_MISS for mk in MARKERS)
 TABLE = _table()
 TABLE_SIZE = len(TABLE)
 
@@ -180,7 +191,7 @@ def gen(rng, tier, i):
     if kind == "heal":
         # bias: first success exactly at / just after the limit, or never
         n = rng.randint(0, 8)
-        alpha = "IIWWEUUUUMQRTTAKZ" + "VXL"
+        alpha = "IIWWEUUUUMQRTTAKZNqtb" + "VXL"
         shape = weighted(rng, [(3, "never"), (3, "at_limit"), (2, "after_limit"), (2, "free")])
         if shape == "free":
             s = [rng.choice(alpha) for _ in range(n)]
@@ -191,7 +202,7 @@ def gen(rng, tier, i):
             if shape != "never":
                 s.append(rng.choice("VVXL"))
             if rng.random() < 0.25 and s:
-                s[rng.randrange(len(s))] = rng.choice("RTTTAKZ")      # the generator's own body raises a built-in type
+                s[rng.randrange(len(s))] = rng.choice("RTTTAKZNNqtb")      # the generator's own body raises a built-in type
         return _heal_plan(lim, rng.choice(["tagged", "tagged", "plain"]), s,
                           weighted(rng, [(3, "last"), (2, "cycle")]),
                           decay=rng.choice([0.1, 0.1, 0.0, 0.5, 1.0]),
@@ -203,9 +214,9 @@ def gen(rng, tier, i):
         steps = rng.randint(0, 4)
         mode = weighted(rng, [(2, "global"), (2, "worker")])
         shape = weighted(rng, [(3, "never"), (3, "last_step"), (2, "free"), (3, "reentrant")])
-        quiet = "suuaes"
+        quiet = "suuaesnnn"
         if shape == "free":
-            s = [rng.choice("suaeMdfRDP") for _ in range(rng.randint(0, 8))]
+            s = [rng.choice("suaeMdfRDPnn") for _ in range(rng.randint(0, 8))]
         elif shape == "reentrant":
             # some workers die first, then a worker hands a sub-task to its own supervisor; the sub-run mostly ends at once
             dead = rng.randint(0, max(0, lim)) * max(1, steps)
@@ -330,7 +341,9 @@ def _run_heal(plan, k, tr):
         if sym in GEN_RAISES:
             k.fault("collab_raise")
             k.probe("heal_generator_raised")
-            if sym != "R":
+            if sym in "Nqtb":
+                k.probe("heal_generator_raised_provider_error")
+            elif sym != "R":
                 k.probe("heal_generator_raised_builtin_type")
             raise GEN_RAISES[sym]()
         k.fault("collab_adversarial_value")
@@ -422,6 +435,8 @@ def _heal_once(k, tr, cfg, loop, chap, calls, tokens, bound, site):
                         f"tagged={res.ubiquitin_tagged} confidence={res.final_confidence}")
         if n == bound:
             k.probe("heal_degraded_at_limit")
+        elif n < bound:
+            k.probe("heal_degraded_before_limit")
 
 
 # --------------------------------------------------------------------------- swarm
@@ -503,6 +518,9 @@ def _run_swarm(plan, k, tr):
             if check_marker(res, "a nested supervise"):
                 k.probe("swarm_reentrant_sub_succeeded")
             outp = "delegated a sub-task" if sym == "D" else f"delegated: {res.output}"
+        elif sym == "n":
+            outp = f"{NEAR_MISS[state['gstep'] % len(NEAR_MISS)]} ({state['gstep']})"
+            k.probe("swarm_near_miss_output")
         elif sym == "u":
             outp = f"idea {state['gstep']}"
         elif sym == "a":
